@@ -129,8 +129,20 @@ def convTo (dst src : CTy) (raw : Nat) : Nat :=
   if src.isFloat then
     let x : Float := if src = .f32 then (f32OfRaw raw).toFloat else f64OfRaw raw
     match dst with
-    | .f32 => if src = .f32 then raw % 2 ^ 32 else x.toFloat32.toBits.toNat
-    | .f64 => if src = .f64 then raw % 2 ^ 64 else x.toBits.toNat
+    | .f32 =>
+      if src = .f32 then raw % 2 ^ 32
+      else
+        let r := raw % 2 ^ 64
+        -- NaN: the SSE conversion keeps the sign, sets the quiet bit and truncates the payload
+        -- (Lean's `toBits` would give the canonical NaN instead)
+        if r / 2 ^ 52 % 2 ^ 11 = 2 ^ 11 - 1 ∧ r % 2 ^ 52 ≠ 0 then r / 2 ^ 63 * 2 ^ 31 + 0x7fc00000 + r % 2 ^ 51 / 2 ^ 29
+        else x.toFloat32.toBits.toNat
+    | .f64 =>
+      if src = .f64 then raw % 2 ^ 64
+      else
+        let r := raw % 2 ^ 32
+        if r / 2 ^ 23 % 2 ^ 8 = 2 ^ 8 - 1 ∧ r % 2 ^ 23 ≠ 0 then r / 2 ^ 31 * 2 ^ 63 + 0x7ff8000000000000 + r % 2 ^ 22 * 2 ^ 29
+        else x.toBits.toNat
     | .bool => if x == 0 then 0 else 1
     | d => floatToInt d x
   else
